@@ -299,6 +299,9 @@ pub fn doc_menu(root_name: &str) -> Vec<LDeco> {
     );
     push("decl-attlist-empty", Deco::Decl(ADecl::AttList { elem: root_name.to_string(), defs: vec![] }));
     push("decl-attlist-prefixed", Deco::Decl(attlist(root_name, "p:d", "CDATA", ADefault::Value { fixed: false, value: t("v") })));
+    // namespace declarations defaulted from the DTD: declarations, not attributes
+    push("decl-attlist-nsdecl-prefix", Deco::Decl(attlist(root_name, "xmlns:p", "CDATA", ADefault::Value { fixed: false, value: t("urn:dp") })));
+    push("decl-attlist-nsdecl-default", Deco::Decl(attlist(root_name, "xmlns", "CDATA", ADefault::Value { fixed: true, value: t("urn:dd") })));
     for (label, spec) in [
         ("empty", "EMPTY"),
         ("any", "ANY"),
